@@ -175,7 +175,39 @@ CONSTRAINED = [
     ('<start> ::= <k> "=" <v>\n<k> ::= <c>+\n<v> ::= <d>{1,3}\n<c> ::= "a" | "b"\n<d> ::= "0" | "1"\nwhere len(str(<k>)) == 2\nwhere int(<v>) >= 1\n'),
     ('<start> ::= <n> <x>{int(<n>)} ";"\n<n> ::= "1" | "2" | "3"\n<x> ::= "p" | "q"\nwhere str(<start>).count("p") >= 1\n'),
     ('<start> ::= <e>\n<e> ::= "(" <e> ")" | <t>\n<t> ::= <d> | <d> <d>\n<d> ::= "0" | "1" | "2"\nwhere str(<t>) != "00"\n'),
+    # ambiguous words of which only one derivation satisfies the constraint (the separator is an element of the repetitions around it)
+    ('<start> ::= <key> "=" <value> ";"\n<key> ::= <char>+\n<value> ::= <char>+\n<char> ::= "a" | "b" | "="\nwhere not str(<value>).startswith("=")\n'),
+    ('<start> ::= <key> "=" <value> ";"\n<key> ::= <char>*\n<value> ::= <char>+\n<char> ::= "a" | "="\nwhere not str(<key>).endswith("=")\nwhere len(str(<value>)) >= 2\n'),
 ]
+
+
+def sep_words(rng, k):
+    """words of the two separator grammars and whether SOME derivation satisfies the constraints (brute force over the cut)"""
+    out = []
+    for _ in range(k):
+        body = "".join(rng.choice("aa=b===") for _ in range(rng.randint(2, 8)))
+        out.append(body + ";")
+    return out
+
+
+def sep_expected(spec_index, w):
+    if not w.endswith(";"):
+        return False
+    body = w[:-1]
+    alpha = "ab=" if spec_index == 3 else "a="
+    if any(c not in alpha for c in body):
+        return False
+    for i, c in enumerate(body):
+        if c != "=":
+            continue
+        key, value = body[:i], body[i + 1:]
+        if spec_index == 3:
+            if key and value and not value.startswith("="):
+                return True
+        else:
+            if value and not key.endswith("=") and len(value) >= 2:
+                return True
+    return False
 
 
 def roundtrip_constrained(res, n):
@@ -205,6 +237,24 @@ def roundtrip_constrained(res, n):
             if not ok and len(res.violations) < 3:
                 res.violation("a solution emitted by fuzz() is not parsed back by the same spec (API parse with constraints)",
                               {"spec": spec, "solution": w, "parse_back": [str(t) for t in back][:3]})
+        si = i % len(CONSTRAINED)
+        if si in (3, 4):
+            # independently enumerated words: accepted through the API exactly when some derivation satisfies the constraints
+            for w in sep_words(rng, 200):
+                want = sep_expected(si, w)
+                try:
+                    got = any(str(t) == w for t in common.guarded(lambda: list(fan.parse(w)), 5))
+                except common.ImplTimeout:
+                    continue
+                except Exception:
+                    got = False
+                res.count(("validate-enumerated", spec, w), nontrivial=True)
+                res.bump("enumerated_accepted" if got else "enumerated_rejected")
+                if want and not got and len(res.violations) < 3:
+                    res.violation("a word one of whose derivations satisfies the constraints is not accepted through the API (that derivation is missing from the forest)",
+                                  {"spec": spec, "word": w})
+                elif got and not want and len(res.violations) < 3:
+                    res.violation("a word none of whose derivations satisfies the constraints is accepted through the API", {"spec": spec, "word": w})
 
 
 def probe_utf8_text_in_binary(res, sigs):
@@ -278,7 +328,7 @@ def correspondence(res):
             res.violation(what, infos[i])
     probe_utf8_text_in_binary(res, sigs)
     probes(res, sigs)
-    roundtrip_constrained(res, 9 if res.tier == "quick" else 90)
+    roundtrip_constrained(res, 10 if res.tier == "quick" else 100)
     if broken:
         raise broken
 
